@@ -1,5 +1,5 @@
 """dev helper: verify the specs whose key contains any of the given substrings"""
-import sys, time; sys.path.insert(0, '/verif')
+import sys, time, os; sys.path.insert(0, os.path.dirname(os.path.dirname(os.path.abspath(__file__))))
 from pyvc import cli
 from pyvc.verify import verify_function
 repo, world, ex, R = cli.load()
